@@ -4,9 +4,14 @@ CONSUMED by Proj/Projector.v, Proj/Convert.v:
   projector_modes        every `mode == <lit>` branch of project(): (mode, keep list | none, lossy, fields_omitted)
   projector_default      the final else branch (same record shape)
   convert_node_classes   node classes _ast_to_dict / _convert_block turn into dict entries (1 Assignment, 2 Block)
-  convert_value_classes  isinstance order of _convert_value (1 LiteralZoneValue, 2 ListValue, 3 InlineMap)
+  convert_value_classes  isinstance order of _convert_value (1 LiteralZoneValue, 2 ListValue, 3 InlineMap,
+                         4 HolographicValue, 5 dict = nested META block); the body of every case is checked to be the
+                         expression the model implements (zone dict literal / recursive list / recursive dict over
+                         .pairs / value.raw_pattern / recursive dict over the dict itself / `return value` fall-through)
   convert_zone_keys      keys of the dict a literal zone is exported as (with the marker value)
-  cli_convert_value_classes   the same for the CLI copy (no literal-zone case on the pinned tree)
+  format_markdown_value_classes   isinstance order of _format_markdown_value (same codes; cases 4, 5 and the str()
+                         fall-through are checked, the other bodies are pinned as source text)
+  cli_convert_value_classes   the same for the CLI copy (no literal-zone / holographic / dict case on the pinned tree)
   eject_format_lossy     per output format of EjectTool.execute: 1 = lossy flag is result.lossy
 PINNED (Proj/Pins_Projector.v): normalised sources of _filter_fields, the markdown writers (both copies), the dict
 converters (both copies), and the format dispatch of EjectTool.execute and of the CLI eject command.
@@ -18,7 +23,41 @@ from .tlib import HEADER, TranslateError, coq_list, coq_str, coq_strlist, const_
 OUTPUTS = ["ProjectorGen.v"]
 
 NODE_CODES = {"Assignment": 1, "Block": 2}
-VALUE_CODES = {"LiteralZoneValue": 1, "ListValue": 2, "InlineMap": 3}
+VALUE_CODES = {"LiteralZoneValue": 1, "ListValue": 2, "InlineMap": 3, "HolographicValue": 4, "dict": 5}
+BUILTIN_CLASSES = {"dict"}
+
+
+def _value_case_bodies(rec):
+    """class code -> the only `return` expression (ast.unparse form) the model of _convert_value implements;
+    `rec` = name of the recursive converter (eject.py: _convert_value, CLI copy: convert_value)"""
+    return {
+        2: f"[{rec}(item) for item in value.items]",
+        3: f"{{k: {rec}(v) for k, v in value.pairs.items()}}",
+        4: "value.raw_pattern",
+        5: f"{{k: {rec}(v) for k, v in value.items()}}",
+    }
+
+
+MD_CASE_BODIES = {
+    4: "value.raw_pattern",
+    5: "', '.join((f'{k}: {_format_markdown_value(v)}' for k, v in value.items()))",
+}
+
+
+def _single_return(stmts, where):
+    need(len(stmts) == 1 and isinstance(stmts[0], ast.Return) and stmts[0].value is not None,
+         f"{where}: case body is not a single `return <expr>`")
+    return ast.unparse(stmts[0].value)
+
+
+def _check_imported(mod_or_fn, names, where):
+    """every AST class named in an isinstance chain is imported from octave_mcp.core.ast_nodes (else: NameError at run time)"""
+    imported = set()
+    for n in mod_or_fn.body:
+        if isinstance(n, ast.ImportFrom) and n.module == "octave_mcp.core.ast_nodes" and n.level == 0:
+            imported |= {a.asname or a.name for a in n.names}
+    for nm in names:
+        need(nm in BUILTIN_CLASSES or nm in imported, f"{where}: class {nm} is used in isinstance() but not imported from core.ast_nodes")
 
 
 def _strip_doc(fn):
@@ -71,21 +110,34 @@ def _mode_record(stmts, where):
 def _isinstance_chain(fn, var, codes, where):
     """The if/elif isinstance(var, C) chain at the top of fn (or of a for-loop body) -> [code]."""
     out = []
-    ifs = [s for s in _strip_doc(fn) if isinstance(s, ast.If)]
-    need(len(ifs) >= 1, f"{where}: no isinstance chain")
+    stmts = _strip_doc(fn)
+    ifs = [s for s in stmts if isinstance(s, ast.If)]
+    need(len(ifs) == 1, f"{where}: expected exactly one isinstance chain, found {len(ifs)}")
     cur = ifs[0]
+    cases = {}
+    names = []
     while True:
         t = cur.test
-        need(isinstance(t, ast.Call) and ast.unparse(t.func) == "isinstance" and ast.unparse(t.args[0]) == var
+        need(isinstance(t, ast.Call) and ast.unparse(t.func) == "isinstance" and len(t.args) == 2 and not t.keywords
+             and ast.unparse(t.args[0]) == var
              and isinstance(t.args[1], ast.Name) and t.args[1].id in codes, f"{where}: unknown test `{ast.unparse(t)}`")
-        out.append(codes[t.args[1].id])
+        code = codes[t.args[1].id]
+        need(code not in cases, f"{where}: class {t.args[1].id} tested twice")
+        out.append(code)
+        names.append(t.args[1].id)
+        cases[code] = cur.body
         if not cur.orelse:
+            # no else branch: the fall-through is whatever follows the chain in the function body
+            rest = stmts[stmts.index(ifs[0]) + 1:]
             break
         if len(cur.orelse) == 1 and isinstance(cur.orelse[0], ast.If):
             cur = cur.orelse[0]
         else:
+            rest = cur.orelse
+            need(stmts.index(ifs[0]) == len(stmts) - 1, f"{where}: statements after an if/else chain")
             break
-    return out, ifs[0]
+    need(stmts.index(ifs[0]) == 0, f"{where}: statements before the isinstance chain")
+    return out, ifs[0], cases, rest, names
 
 
 def _loop_node_classes(fn, loopvar, where):
@@ -136,7 +188,21 @@ def generate(src):
     n1 = _loop_node_classes(a2d, "section", "eject._ast_to_dict")
     n2 = _loop_node_classes(cb, "child", "eject._convert_block")
     need(n1 == n2, "eject: _ast_to_dict and _convert_block handle different node classes")
-    vclasses, first_if = _isinstance_chain(cv, "value", VALUE_CODES, "eject._convert_value")
+    vclasses, first_if, vcases, vrest, vnames = _isinstance_chain(cv, "value", VALUE_CODES, "eject._convert_value")
+    for code, want in _value_case_bodies("_convert_value").items():
+        if code in vcases:
+            got = _single_return(vcases[code], f"eject._convert_value[class {code}]")
+            need(got == want, f"eject._convert_value[class {code}]: returns `{got}`, the model implements `{want}`")
+    need(_single_return(vrest, "eject._convert_value[else]") == "value", "eject._convert_value: fall-through is not `return value`")
+    fmv = find_def(emod, "_format_markdown_value")
+    mclasses, _, mcases, mrest, mnames = _isinstance_chain(fmv, "value", VALUE_CODES, "eject._format_markdown_value")
+    for code, want in MD_CASE_BODIES.items():
+        if code in mcases:
+            got = _single_return(mcases[code], f"eject._format_markdown_value[class {code}]")
+            need(got == want, f"eject._format_markdown_value[class {code}]: returns `{got}`, the model implements `{want}`")
+    need(_single_return(mrest, "eject._format_markdown_value[else]") == "str(value)",
+         "eject._format_markdown_value: fall-through is not `return str(value)`")
+    _check_imported(emod, set(vnames) | set(mnames) | set(NODE_CODES), "eject.py")
     zone_keys = None
     if 1 in vclasses:
         r = first_if.body[0]
@@ -168,11 +234,17 @@ def generate(src):
     cn1 = _loop_node_classes(ca2d, "section", "cli._ast_to_dict")
     cn2 = _loop_node_classes(inner["convert_block"], "child", "cli.convert_block")
     need(cn1 == cn2 == n1, "cli: node classes differ from eject.py")
-    cvclasses, _ = _isinstance_chain(inner["convert_value"], "value", VALUE_CODES, "cli.convert_value")
+    cvclasses, _, ccases, crest, cnames = _isinstance_chain(inner["convert_value"], "value", VALUE_CODES, "cli.convert_value")
+    for code, want in _value_case_bodies("convert_value").items():
+        if code in ccases:
+            got = _single_return(ccases[code], f"cli.convert_value[class {code}]")
+            need(got == want, f"cli.convert_value[class {code}]: returns `{got}`, the model implements `{want}`")
+    need(_single_return(crest, "cli.convert_value[else]") == "value", "cli.convert_value: fall-through is not `return value`")
+    _check_imported(ca2d, set(cnames) | set(NODE_CODES), "cli._ast_to_dict")
     pins = {
         "src_filter_fields": _src(find_def(pmod, "_filter_fields")),
         "src_ast_to_dict": _src(a2d), "src_convert_value": _src(cv), "src_convert_block": _src(cb),
-        "src_format_markdown_value": _src(find_def(emod, "_format_markdown_value")),
+        "src_format_markdown_value": _src(fmv),
         "src_ast_to_markdown": _src(find_def(emod, "_ast_to_markdown")),
         "src_block_to_markdown": _src(find_def(emod, "_block_to_markdown")),
         "src_cli_ast_to_dict": _src(ca2d),
@@ -196,6 +268,7 @@ def generate(src):
     out.append(f"Definition projector_default : option (list (list N)) * bool * list (list N) := {mode_rec(*default)}.\n")
     out.append(f"Definition convert_node_classes : list N := {coq_list([str(x) for x in n1], 'N')}.\n")
     out.append(f"Definition convert_value_classes : list N := {coq_list([str(x) for x in vclasses], 'N')}.\n")
+    out.append(f"Definition format_markdown_value_classes : list N := {coq_list([str(x) for x in mclasses], 'N')}.\n")
     out.append(f"Definition cli_convert_value_classes : list N := {coq_list([str(x) for x in cvclasses], 'N')}.\n")
     zk = zone_keys or []
     out.append("(* literal zone export: (dict key, source of the value expression) *)\n")
